@@ -432,21 +432,30 @@ bool Model::do_unfetch(int c, const JV &req, const JV &params) {
 	return true;
 }
 
-bool Model::do_get(int c, const JV &req, const JV &params) {
-	Peer &p = peers[c];
+int Model::get_image(int c, const JV &params, JV &set, bool *all) const {
+	set = JV::arr();
+	auto pi = peers.find(c);
+	if (pi == peers.end()) return 1;
+	const Peer &p = pi->second;
 	Rule rule; int rc = parse_rule(params.get("path"), max_matchers, rule);
-	if (rc == 3) { host->harness_error("unmodelled get rule in exact mode"); return true; }
-	if (rc == 1) { host->probe("get_rule_refused"); respond(c, req, Exp::R_ERR_DAEMON, "C16", "refused rule in get"); return true; }
-	if (!rule.all) host->probe("get_with_rule");
-	JV set = JV::arr();
+	if (rc == 3 || rc == 1) return rc;
 	for (auto &kv : elems) {
 		const Elem &e = kv.second;
 		if (!e.is_state || !visible(p, e) || !rule.matches(e.path)) continue;
 		JV o = JV::obj(); o.set("path", JV::str(e.path)); o.set("value", e.value); set.push(o);
 	}
+	if (all) *all = rule.all;
+	return rc;
+}
+
+bool Model::do_get(int c, const JV &req, const JV &params) {
+	JV set; bool all = false; int rc = get_image(c, params, set, &all);
+	if (rc == 3) { host->harness_error("unmodelled get rule in exact mode"); return true; }
+	if (rc == 1) { host->probe("get_rule_refused"); respond(c, req, Exp::R_ERR_DAEMON, "C16", "refused rule in get"); return true; }
+	if (!all) host->probe("get_with_rule");
 	host->probe("get");
 	if (set.a.size() >= 2) host->probe("get_selected>=2");
-	respond(c, req, rc == 2 ? Exp::R_ERR_OR_GETSET : Exp::R_GETSET, have_creds ? "C08" : rule.all ? "C04" : "C16", "get", set);
+	respond(c, req, rc == 2 ? Exp::R_ERR_OR_GETSET : Exp::R_GETSET, have_creds ? "C08" : all ? "C04" : "C16", "get", set);
 	return true;
 }
 
@@ -673,4 +682,12 @@ uint64_t Model::fingerprint() const {
 	int st = 0, fo = 0; for (auto &e : elems) { if (e.second.is_state) st++; if (e.second.fetch_only) fo++; }
 	h.u64(std::min(st, 4)); h.u64(std::min(fo, 2));
 	return h.h;
+}
+
+std::string Model::image_key() const {
+	std::string k;
+	for (auto &pp : peers) { const Peer &p = pp.second; if (!p.alive) continue; k += "P" + std::to_string(p.c) + (p.authed ? "a" + p.user : "") + ";"; }
+	for (auto &kv : elems) { const Elem &e = kv.second; k += "E" + json_escape(e.path) + "#" + std::to_string(e.owner) + (e.is_state ? "s" + e.value.dump() : "m") + (e.fetch_only ? "f" : "") + ";"; }
+	for (auto &u : users) k += "U" + u.first + "=" + u.second.password + ";";
+	return k;
 }
